@@ -234,7 +234,9 @@ def run(res, a):
         for codes in o["M"]:
             for c in codes:
                 mism.append(({1: "the section composed by the model differs from the assembled program of some processor",
-                              2: "the model's direct evaluation differs from the settled outputs"}[c], metas[k]))
+                              2: "the model's direct evaluation differs from the settled outputs",
+                              3: "a generated graph or collapse list is outside the conditions of the pass-correctness theorem (graph_ok / pass_ok)",
+                              4: "one pass of the assembled section, run in the model on the settled inputs, does not leave the graph's values at the processor outputs"}[c], metas[k]))
             k += 1
     if False:
         pass
